@@ -44,7 +44,7 @@ func VerifExtractHist(id uint32) VerifHistReport {
 
 // VerifBucketCounts returns the bucketized counters of histogram id.
 func VerifBucketCounts(id uint32) []uint64 {
-	a := extractBHist(bhists[id])
+	a := extractBHist(&bhists[id])
 	r := make([]uint64, len(a))
 	copy(r, a[:])
 	return r
